@@ -26,6 +26,7 @@ type thread struct {
 	state  tstate
 	wake   chan struct{}
 	reason string // what it is parked on (diagnostics)
+	quiet  bool   // parked in Quiesce: made runnable when no other thread can run
 
 	// happens-before bookkeeping for state caching
 	sid      uint64 // stable id: a function of the creator's stable id and its spawn count
@@ -378,6 +379,9 @@ func (s *Sched) park(reason string) {
 	me.reason = reason
 	opts := s.options(me, false)
 	if len(opts) == 0 {
+		opts = s.wakeQuiet()
+	}
+	if len(opts) == 0 {
 		s.noRunnable()
 		<-me.wake
 		panic(abortToken{})
@@ -396,6 +400,9 @@ func (s *Sched) park(reason string) {
 func (s *Sched) threadExit(me *thread) {
 	opts := s.options(me, false)
 	if len(opts) == 0 {
+		opts = s.wakeQuiet()
+	}
+	if len(opts) == 0 {
 		s.noRunnable()
 		return
 	}
@@ -406,6 +413,35 @@ func (s *Sched) threadExit(me *thread) {
 	next := opts[s.choose(len(opts), false, "sched-exit")]
 	s.cur = next
 	next.wake <- struct{}{}
+}
+
+// wakeQuiet makes the thread waiting in Quiesce (if any) runnable: nothing else can run.
+func (s *Sched) wakeQuiet() []*thread {
+	for _, t := range s.threads {
+		if t.state == parked && t.quiet {
+			t.quiet = false
+			t.state = runnable
+			t.wakeHash = s.cur.lastEv
+			return []*thread{t}
+		}
+	}
+	return nil
+}
+
+// Quiesce blocks the calling thread until every other thread is parked or finished (the system
+// is quiescent): the driver of an explicit-state search calls it after each event. It is not a
+// deadlock for the others to be parked at that moment.
+func Quiesce() {
+	s := cur
+	if s == nil || s.aborting {
+		return
+	}
+	me := s.cur
+	if len(s.options(me, false)) == 0 {
+		return
+	}
+	me.quiet = true
+	s.park("quiesce")
 }
 
 // noRunnable ends the execution: complete, or a deadlock if a non-daemon thread is parked.
